@@ -32,6 +32,19 @@ def run_property(prop, tier, seed, repo=None, write=True, only_rule=None):
     rep = Report(prop, tier)
     rep.only_rule = only_rule
     mod.run(repo, rep, tier)
+    if tier == "thorough" and only_rule is None and not os.environ.get("HGSA_NO_SELFVAL"):
+        from hgsa import selfval
+
+        sv = selfval.run(prop, repo.root)
+        rep.extra["self_validation"] = sv
+        print(f"   self-validation: {sv['killed']}/{sv['mutants']} broken variants reported, "
+              f"{sv['neutral_silent']}/{sv['neutral_twins']} neutral twins silent, {len(sv['skipped'])} skipped")
+        for m in sv["missed"]:
+            print(f"   SELF-VALIDATION missed: {m}")
+        for m in sv["neutral_alarms"]:
+            print(f"   SELF-VALIDATION neutral twin alarmed: {m}")
+    if os.environ.get("HGSA_NO_EVIDENCE"):   # development runs against scratch variants must not touch the evidence files
+        write = False
     return rep.finish(seed=seed, write=write)
 
 
